@@ -1,6 +1,6 @@
 (* extraction root for C16 — no proofs are needed to build this file *)
 Require Extraction.
 Require Import ExtrOcamlBasic.
-From V Require Import Gfp LtsSimDefs.
+From V Require Import Gfp LtsSimDefs LtsWorkDefs LtsCountDefs.
 Extraction "ex_c16.ml" lts_sim lts_sim_default output input_ok lts_wf partition_ok brel_refl brel_trans brel_dom
-  rel_same below gate_lts gate_lts_default init_rel.
+  rel_same below gate_lts gate_lts_default init_rel hhk_sim hhkc_sim.
